@@ -57,6 +57,9 @@ func (p *proxy) loop() {
 		mode := p.mode
 		ra := p.resetAfter
 		p.resetAfter = 0
+		if mode == "killopn" {
+			ra = 2 // HEL is answered, the connection dies on the OpenSecureChannel request
+		}
 		p.mu.Unlock()
 		switch mode {
 		case "refuse":
